@@ -224,9 +224,9 @@ PROPS = {
         "py_only": True,
         "budget_s": (60, 480),
         "min_nontrivial": {"quick": 500, "thorough": 5000},
-        "must_observe": ["wrapper:Fresh(.pair builds new children)", "wrapper:LazyNode(deser_legacy)", "wrapper:Program.to", "wrapper:CLVMTree"],
+        "must_observe": ["wrapper:Fresh(.pair builds new children)", "wrapper:LazyNode(deser_legacy)", "wrapper:Program.to", "wrapper:CLVMTree", "wrapper:Mixed(LazyNode . LazyNode)", "wrapper:Mixed(Program.to((from_bytes, from_bytes)))"],
         "rule": "Random trees/DAGs (1-250 pair constructions, shared and unshared) wrapped in every storage the wheel ships or accepts: Program.to, plain python objects, CLVMTree, LazyNode from deser_legacy/deser_backrefs/deser_2026 and from a program result, Program.wrap(LazyNode), "
-                "Program.wrap(CLVMTree), Program.from_bytes and a harness class whose .pair builds fresh children on every access; with and without forced gc.collect(). deser_2026(ser_2026(clvm_tree_to_lazy_node(obj))) and the returned LazyNode itself must re-serialise (independent python serialiser) "
+                "Program.wrap(CLVMTree), Program.from_bytes, a harness class whose .pair builds fresh children on every access, and trees whose two halves come from separate deserialisations / program runs (LazyNode pairs, Program.to of two from_bytes Programs, python objects mixed with wrapped LazyNodes); with and without forced gc.collect(). deser_2026(ser_2026(clvm_tree_to_lazy_node(obj))) and the returned LazyNode itself must re-serialise (independent python serialiser) "
                 "to the source tree. Non-trivial: storage whose .pair creates fresh children and tree of >=50 nodes.",
         "assumptions": COMMON_ASSUMPTIONS,
     },
@@ -327,9 +327,10 @@ PROPS = {
         "variants": REL,
         "budget_s": (25, 300),
         "min_nontrivial": {"quick": 2000, "thorough": 20000},
+        "must_observe": ["operator_level_calls_with_tiny_remaining_budget"],
         "rule": PROG + "without guards, restricted to the vocabulary common to both dialects (programs/envs containing 36, 48, 62, 63 or a 4-byte secp opcode anywhere are skipped), run on ChiaDialect(F) and on "
                 "RuntimeDialect(standard table: the 44 names of f_table.rs at their ChiaDialect opcodes, secp only when ENABLE_SECP_OPS; quote 1, apply 2) with the same effective flags; F without ENABLE_GC/DISABLE_OP/"
-                "ENABLE_KECCAK_OPS_OUTSIDE_GUARD/ENABLE_SHA256_TREE. Result, cost and error variant must agree. Non-trivial: run succeeded or failed inside an operator.",
+                "ENABLE_KECCAK_OPS_OUTSIDE_GUARD/ENABLE_SHA256_TREE. Result, cost and error variant must agree. In addition every table operator is called directly through Dialect::op of both dialects with generated argument lists (a quarter with a pair behind a valid first argument) at remaining budgets {0,1,2,3,10,100,C-1,C,C+1,random,u64::MAX}. Non-trivial: run succeeded or failed inside an operator.",
         "assumptions": COMMON_ASSUMPTIONS + ["the 'standard table' is the harness's mapping of f_table.rs names to ChiaDialect opcodes"],
     },
     "C31": {
@@ -364,7 +365,7 @@ PROPS = {
         "must_observe": ["sha256:ok", "keccak256:ok", "coinid:ok", "coinid:reject", "g1_multiply:ok", "g2_add:ok", "g1_negate:reject", "g2_negate:ok", "pubkey_for_exp:ok", "bls_verify:ok", "bls_verify:verify-fail",
                          "bls_pairing_identity:ok", "secp256k1_verify:ok", "secp256k1_verify:verify-fail", "secp256r1_verify:ok", "openssl_cross_checks", "g1_map_output_is_subgroup_point", "g2_map_default_dst_checked"],
         "rule": "Logged direct calls of the 18 cryptographic operators on structured argument lists: valid points, corrupted points (x>=p, off-curve, outside the subgroup, wrong/uncompressed/infinity flags, wrong lengths), scalars around 0, +-r and up to KBs, messages/DSTs of all sizes, "
-                "valid ECDSA triples (signed in the harness) with bit flips, truncations, zero signatures, high-S; valid AUG-scheme signatures constructed through the operators and wrong-message variants; RELAXED_BLS on/off. Oracles (pymon/cryptoref, self-validated): hashlib SHA-256, "
+                "valid ECDSA triples (signed in the harness) with bit flips, truncations, zero signatures and the algebraic twins of valid signatures ((r, n-s) i.e. high-S, (r, 0), (n-r, s)); valid AUG-scheme signatures constructed through the operators and wrong-message variants; RELAXED_BLS on/off. Oracles (pymon/cryptoref, self-validated): hashlib SHA-256, "
                 "pure-python Keccak-256, BLS12-381 group law / ZCash encoding / subgroup checks / ate pairing, ECDSA over both curves cross-checked with the system OpenSSL. Policy pinned: infinity points are valid keys/signatures (chia-bls), secp256k1 requires low-S, secp256r1 does not. "
                 "g1_map/g2_map are only partially covered (output is an r-torsion point, default DST equality, and the pairing relation that ties g2_map to bls_verify). Non-trivial: every modelled call (distinct op/arguments).",
         "assumptions": COMMON_ASSUMPTIONS + ["hash-to-curve (SSWU + isogeny) is not independently re-implemented; bls_verify is checked with the operator's own g2_map(pk||msg) points"],
